@@ -86,6 +86,45 @@ func run(c *core.Ctx, call callFn, args []cty.Value) (o outcome) {
 	return outcome{ok: true, kind: "value", v: v}
 }
 
+// runShared is run without the private copy of the argument slice.
+func runShared(c *core.Ctx, call callFn, args []cty.Value) (o outcome) {
+	var v cty.Value
+	var err error
+	g := core.Guard(func() { v, err = call(args) })
+	c.Eval(1)
+	switch {
+	case g.Panicked:
+		return outcome{kind: "panic", msg: g.PanicMsg}
+	case err != nil:
+		return outcome{kind: "error", msg: err.Error()}
+	case v == cty.NilVal:
+		return outcome{kind: "nilval"}
+	}
+	return outcome{ok: true, kind: "value", v: v}
+}
+
+// markedText writes a value out with its marks at every depth (paths and sorted mark sets): two values have the
+// same text iff they carry the same marks at the same places on the same payload text.
+func markedText(v cty.Value) string {
+	var sb strings.Builder
+	g := core.Guard(func() {
+		u, pvm := v.UnmarkDeepWithPaths()
+		fmt.Fprintf(&sb, "%#v", u)
+		lines := make([]string, 0, len(pvm))
+		for _, e := range pvm {
+			lines = append(lines, fmt.Sprintf("%#v=%s", e.Path, marksText(e.Marks)))
+		}
+		sort.Strings(lines)
+		sb.WriteString(" marks{" + strings.Join(lines, "; ") + "}")
+	})
+	if g.Panicked {
+		return "unprintable: " + g.PanicMsg
+	}
+	return sb.String()
+}
+
+func sameMarks(a, b cty.ValueMarks) bool { return mon.MarksSubset(a, b) && mon.MarksSubset(b, a) }
+
 // resEqual is the "same result" comparator: marks ignored at every depth,
 // documented equality, unknowns by range, sets as sets; the stdlib bytes
 // capsule by content.
@@ -394,6 +433,37 @@ func checkPair(c *core.Ctx, idx int64, p *pair) {
 		c.Count("result:carries-marks")
 		if len(got) == 0 {
 			c.Count("result:nested-marks-only")
+		}
+	}
+	// clause 6 (history): the call leaves its inputs alone and answers the same the second time. The marked inputs
+	// are handed over in ONE slice that is used for two calls in a row, the way a caller evaluates one argument list
+	// twice: afterwards the slice still holds the same marked values (a mark stripped from the caller's slice is a
+	// mark lost on the second call; a mark that appeared on an input value is a mark no input carried), and the
+	// second result carries the marks the first one carried.
+	if len(all) > 0 {
+		c.Count("clause:inputs-untouched-and-repeatable")
+		pre := make([]string, len(p.marked))
+		for k, v := range p.marked {
+			pre[k] = markedText(v)
+		}
+		shared := append([]cty.Value(nil), p.marked...)
+		a := runShared(c, p.call, shared)
+		for k := range shared {
+			if now := markedText(shared[k]); now != pre[k] {
+				c.Violate(site, "the call changed the marks in the argument list it was given", "caller's slice", desc(),
+					fmt.Sprintf("argument %d was %s, after the call the caller's slice holds %s", k, pre[k], now))
+				return
+			}
+			if now := markedText(p.marked[k]); now != pre[k] {
+				c.Violate(site, "an input value carries other marks after the call", "input value", desc(),
+					fmt.Sprintf("input %d was %s, after the call it is %s", k, pre[k], now))
+				return
+			}
+		}
+		b := runShared(c, p.call, shared)
+		if a.ok && b.ok && !sameMarks(mon.DeepMarks(a.v), mon.DeepMarks(b.v)) && sameMarks(mon.DeepMarks(a.v), mon.DeepMarks(r1)) {
+			c.Violate(site, "second call with the same argument list returns other marks", "", desc(),
+				fmt.Sprintf("first result %#v, second result %#v", a.v, b.v))
 		}
 	}
 	if p.extra != nil {
